@@ -23,7 +23,7 @@ theorem vstep_append_any (f : Forest) (p c : Nat) : VStep S Any f (f.append p c)
 theorem vstep_prepend_any (f : Forest) (p c : Nat) : VStep S Any f (f.prepend p c).1 :=
   vstep_prepend f p c (fun _ _ => trivial) (fun _ _ => trivial)
 theorem vstep_insertAfter_any (f : Forest) (r c : Nat) : VStep S Any f (f.insertAfter r c).1 :=
-  vstep_insertAfter f r c (fun _ _ => trivial) trivial (fun _ _ => trivial)
+  vstep_insertAfter f r c (fun _ _ => trivial) trivial (fun _ _ => trivial) (fun _ _ _ => trivial)
 theorem vstep_insertBefore_any (f : Forest) (r c : Nat) : VStep S Any f (f.insertBefore r c).1 :=
   vstep_insertBefore f r c (fun _ _ => trivial) trivial (fun _ _ => trivial)
 theorem vstep_detach_any (f : Forest) (n : Nat) : VStep S Any f (f.detach n).1 :=
@@ -123,7 +123,8 @@ theorem vstep_appendEntryNode (f : Forest) (k : MapKind) (parent child : Nat)
 theorem vstep_anyAppend (f : Forest) (parent child : Nat)
     (hS : ∀ x ∈ (Call.anyAppend parent child).targets f, S x)
     (hT1 : ∀ q, f.prevSibling child = some q → T q)
-    (hT2 : ∀ q, (f.afterOldSite child).lastChild parent = some q → T q) :
+    (hT2 : ∀ q, (f.afterOldSite child).selfPrev child ((f.afterOldSite child).lastChild parent) = some q →
+      T q) :
     VStep S T f (f.anyAppend parent child).1 := by
   unfold anyAppend
   split
